@@ -1,4 +1,7 @@
 import Lemmas.GoCloneBase
+import Generated.GoGErrorIs
+import Lemmas.GoGErrorIs
+import Generated.GerrorBase
 import Model.GErrorIs
 import Properties.C06
 /-!
@@ -64,5 +67,221 @@ theorem go_cloneBase_refs (env : Env σ) (h : Heap) (recv : Val) (a : Nat) (srcE
 /-- non-vacuity: a record whose reference fields are those of a heap object -/
 example : toObj (σ := Unit) ⟨[], [], [], [], (), .nil, [], true⟩ = { obj [{ isFactory := true }] 0 with extTy := none } := by
   decide
+
+end C06Tie
+
+/-!
+# C06, tie A by translation: `Is`, `Unwrap`, `isComparable`, `ExtractFactoryReference`, `Convert`, `ConvertS`, `FactoryOf`
+
+`Generated/GoGErrorIs.lean` is rewritten from /repo's gerror/gerror.go and gerror/factory.go on every run
+(`go2lean -spec gerroris`; primitives in `Model/GoIface.lean`).  The translated functions run on a memory
+of full `GError` records (`Go.Mem`); `Rel m h` says that this memory represents the model heap `h` (same
+size, and every record has the `isFactory`/`factoryRef`/`srcErrors` of the heap object at its address).
+For every memory and heap so related, every receiver, argument and fuel, each translated function returns
+exactly what the hand-written model function returns (`go_*_eq`), panics and fuel exhaustion included;
+the functions that allocate or write return a memory that again represents the model's new heap.
+-/
+namespace C06Tie
+open Generated.GoCloneBase GoCloneBase GErrorIs Generated.GoGErrorIs GoGErrorIs
+
+variable {σ : Type}
+
+/-- the memory of the translated code represents the model heap -/
+structure Rel (m : Go.Mem (GError Val σ)) (h : Heap) : Prop where
+  next : m.next = h.length
+  cell : ∀ a, toObj (m.cell a) = { obj h a with extTy := none }
+
+variable {m : Go.Mem (GError Val σ)} {h : Heap}
+
+theorem Rel.isFactory (hr : Rel m h) (a : Nat) : (m.cell a).isFactory = (obj h a).isFactory := by
+  have := congrArg Obj.isFactory (hr.cell a); simpa [toObj] using this
+theorem Rel.factoryRef (hr : Rel m h) (a : Nat) : (m.cell a).factoryRef = (obj h a).factoryRef := by
+  have := congrArg Obj.factoryRef (hr.cell a); simpa [toObj] using this
+theorem Rel.srcErrors (hr : Rel m h) (a : Nat) : (m.cell a).srcErrors = (obj h a).srcErrors := by
+  have := congrArg Obj.srcErrors (hr.cell a); simpa [toObj] using this
+
+theorem go_embeded_eq (e : Nat) : _embededGError e = pure e := rfl
+
+theorem go_unwrap_eq (hr : Rel m h) (e : Nat) : Unwrap m e = pure (unwrap h (.base e)) := by
+  unfold Unwrap
+  simp only [hr.factoryRef, unwrap]
+  split <;> simp_all
+
+theorem go_isComparable_eq (err : Val) :
+    Generated.GoGErrorIs.isComparable err = pure (err != .nil && GErrorIs.isComparable err) := by
+  unfold Generated.GoGErrorIs.isComparable
+  cases err with
+  | foreign ty i w => cases ty <;> rfl
+  | _ => rfl
+
+theorem go_extractFactoryRef_eq (hr : Rel m h) (err : Val) :
+    ExtractFactoryReference m err = pure (extractFactoryRef h err) := by
+  unfold ExtractFactoryReference extractFactoryRef
+  cases err <;> simp [Go.assertError, embedded, Go.method, go_embeded_eq, hr.isFactory, hr.factoryRef] <;>
+    split <;> rfl
+
+theorem go_is_eq (hr : Rel m h) : ∀ (fuel e : Nat) (err : Val), Is m fuel e err = Go.ofRes (gIs h fuel e err)
+  | 0, _, _ => rfl
+  | n + 1, e, err => by
+    rw [Is, gIs]
+    simp only [go_extractFactoryRef_eq hr, pure_bind, hr.isFactory, hr.factoryRef, hr.srcErrors, Go.ifaceEq,
+      land_pure_ofRes, go_isComparable_eq, lor_ofRes, slicesContains_eq]
+    generalize Res.guard (obj h e).isFactory (ifaceEq (Val.base e) (extractFactoryRef h err)) = r1
+    cases r1 <;> try rfl
+    generalize ((ifaceEq (Val.base e) err).or
+                (Res.guard ((obj h e).factoryRef != Val.nil) (ifaceEq (obj h e).factoryRef err))).or
+            (Res.guard (err != Val.nil && GErrorIs.isComparable err) (containsErr (obj h e).srcErrors err)) = r2
+    cases r2 <;> try rfl
+    simp only [Go.ofRes, pure_bind]
+    cases err <;> simp [Go.assertError, embedded, Go.method, go_unwrap_eq hr, unwrap] <;>
+      split <;> simp_all [Go.ofRes, go_is_eq hr n e]
+
+theorem Rel.new (hr : Rel m h) (c : GError Val σ) : Rel (m.new c).1 (h ++ [toObj c]) := by
+  constructor
+  · simp [Go.Mem.new, hr.next]
+  · intro a
+    simp only [Go.Mem.new, hr.next]
+    by_cases ha : a = h.length
+    · subst ha; simp only [if_pos, obj_append_len]; rfl
+    · simp only [if_neg ha]
+      by_cases hl : a < h.length
+      · rw [obj_append_lt _ hl]; exact hr.cell a
+      · rw [obj_ge (h := h ++ [toObj c]) (by simp; omega), hr.cell a, obj_ge (by omega)]
+
+theorem obj_set {h : Heap} {a : Nat} (ha : a < h.length) (o : Obj) (b : Nat) :
+    obj (h.set a o) b = if b = a then o else obj h b := by
+  unfold obj
+  by_cases hb : b = a
+  · subst hb; simp [ha]
+  · simp [hb, Ne.symm hb]
+
+theorem Rel.store_isFactory (hr : Rel m h) {a : Nat} (ha : a < h.length) :
+    Rel (m.store a { m.cell a with isFactory := true }) (h.set a { obj h a with isFactory := true }) := by
+  constructor
+  · simp [Go.Mem.store, hr.next]
+  · intro b
+    simp only [Go.Mem.store, obj_set ha]
+    by_cases hb : b = a
+    · subst hb
+      simp only [if_pos]
+      have := hr.cell b
+      simp only [toObj, Obj.mk.injEq] at this ⊢
+      simp [this]
+    · simp only [if_neg hb]; exact hr.cell b
+
+/-- the CloneBase call of Convert/ConvertS: the translated CloneBase returns a record whose allocation is the model's cloneBase -/
+theorem clone_step (cenv : Generated.GoCloneBase.Env σ) (hr : Rel m h) (e : Nat) (err : Val) (st : Nat) (dTag source msg : Go.Str) :
+    ∃ c, CloneBase cenv Val.nil (Val.base e) (m.cell e) (Val.base e) st dTag source msg err = pure c ∧
+      GErrorIs.cloneBase h (.base e) e err = (h ++ [toObj c], h.length) := by
+  have hc := go_cloneBase_refs cenv h (.base e) e err (m.cell e) (hr.cell e) st dTag source msg
+  rw [go_cloneBase_pure] at hc
+  simp only [map_pure] at hc
+  exact ⟨_, go_cloneBase_pure .., (Except.ok.inj hc).symm⟩
+
+theorem go_convert_eq (env : Generated.GoGErrorIs.Env σ) (hr : Rel m h) (e : Nat) (err : Val) :
+    ∃ m', Convert env m e err = pure (m', (call h (.base e) .Convert err).2) ∧ Rel m' (call h (.base e) .Convert err).1 := by
+  unfold Convert
+  simp only [call, callWith, Meth.isConvert, Bool.true_and, Meth.srcArg, if_true, go_embeded_eq, pure_bind]
+  cases he : embedded err with
+  | some a =>
+    have hA : Go.assertError err = (err, true) := by simp [Go.assertError, he]
+    exact ⟨m, by simp [hA], by simpa using hr⟩
+  | none =>
+    have hA : Go.assertError err = (.nil, false) := by simp [Go.assertError, he]
+    obtain ⟨c, h1, h2⟩ := clone_step env.clone hr e err SourceStack (Go.str "") (Go.str "") (env.sprintf (Go.str "originalError: %+v") [err])
+    refine ⟨(m.new c).1, by simp [hA, h1, h2, Go.Mem.new, hr.next], ?_⟩
+    simp only [Option.isSome_none, Bool.false_eq_true, if_false, h2]
+    exact hr.new c
+
+
+theorem go_convertS_eq (env : Generated.GoGErrorIs.Env σ) (hr : Rel m h) (e : Nat) (err : Val) :
+    ∃ m', ConvertS env m e err = pure (m', (call h (.base e) .ConvertS err).2) ∧ Rel m' (call h (.base e) .ConvertS err).1 := by
+  unfold ConvertS
+  simp only [call, callWith, Meth.isConvert, Bool.true_and, Meth.srcArg, if_true, go_embeded_eq, pure_bind]
+  cases he : embedded err with
+  | some a =>
+    have hA : Go.assertError err = (err, true) := by simp [Go.assertError, he]
+    exact ⟨m, by simp [hA], by simpa using hr⟩
+  | none =>
+    have hA : Go.assertError err = (.nil, false) := by simp [Go.assertError, he]
+    obtain ⟨c, h1, h2⟩ := clone_step env.clone hr e err DefaultStack (Go.str "") (Go.str "") (env.sprintf (Go.str "originalError: %+v") [err])
+    refine ⟨(m.new c).1, by simp [hA, h1, h2, Go.Mem.new, hr.next], ?_⟩
+    simp only [Option.isSome_none, Bool.false_eq_true, if_false, h2]
+    exact hr.new c
+
+/-- `FactoryOf(err)` for a value of a gerror type (the type parameter's constraint) that points into the heap -/
+theorem go_factoryOf_eq (hr : Rel m h) (v : Val) {a : Nat} (hv : embedded v = some a) (ha : a < h.length) :
+    ∃ m', FactoryOf m v = pure (m', v) ∧ Rel m' (factoryOf h v) := by
+  unfold FactoryOf factoryOf
+  simp only [Go.method, hv, go_embeded_eq, pure_bind, if_pos ha]
+  exact ⟨_, rfl, hr.store_isFactory ha⟩
+
+/-- a method of `*GError` called through an interface value (directly, or promoted through the embedded GError) -/
+theorem go_unwrap_method_eq (hr : Rel m h) (v : Val) {a : Nat} (hv : embedded v = some a) :
+    Go.method v (fun p => Unwrap m p) = pure (unwrap h v) := by
+  simp only [Go.method, hv, go_unwrap_eq hr]
+  cases v <;> simp_all [embedded, unwrap]
+
+/-! ### the headline property for the translated code -/
+
+/-- `errors.Is` of the standard library (the documented loop, as in `GErrorIs.errorsIs`) calling the
+TRANSLATED `Is` method of gerror values -/
+def goErrorsIs (m : Go.Mem (GError Val σ)) (h : Heap) (fuel : Nat) (err target : Val) : Res :=
+  if err = .nil ∨ target = .nil then .ofBool (err == target)
+  else errorsIsLoop (fun n a t => Go.toRes (Is m n a t)) h fuel err target (GErrorIs.isComparable target)
+
+theorem go_errorsIs_eq (hr : Rel m h) (fuel : Nat) (x y : Val) : goErrorsIs m h fuel x y = errorsIs h fuel x y := by
+  have : (fun n a t => Go.toRes (Is m n a t)) = gIs h := by
+    funext n a t; rw [go_is_eq hr, toRes_ofRes]
+  unfold goErrorsIs errorsIs
+  rw [this]
+
+/-- errors.Is over the translated `Is`: true exactly when the two values come from the same factory -/
+theorem go_is_iff_same_factory {cmds : List Cmd} (hd : inDomain 0 cmds = true) (hr : Rel m (run cmds).h) {i j : Nat}
+    (hi : i < (run cmds).vals.length) (hj : j < (run cmds).vals.length) (n : Nat) :
+    goErrorsIs m (run cmds).h (n + 3) ((run cmds).val i) ((run cmds).val j) = .ofBool (specIs cmds i j) := by
+  rw [go_errorsIs_eq hr]; exact is_iff_same_factory hd hi hj n
+
+/-- … for any foreign target: true exactly when that comparable error was converted on the way -/
+theorem go_is_foreign_iff_converted {cmds : List Cmd} (hd : inDomain 0 cmds = true) (hr : Rel m (run cmds).h) {i : Nat}
+    (hi : i < (run cmds).vals.length) (e : Val) (he : isForeign e = true) (n : Nat) :
+    goErrorsIs m (run cmds).h (n + 2) ((run cmds).val i) e = .ofBool (GErrorIs.isComparable e && specIsForeign cmds i e) := by
+  rw [go_errorsIs_eq hr]; exact is_foreign_iff_converted hd hi e he n
+
+/-- the translated `Is` never panics on the heap of an in-domain history, whatever the receiver,
+the target (gerror value, foreign error of any type, nil) and the fuel -/
+theorem go_is_no_panic {cmds : List Cmd} (hd : inDomain 0 cmds = true) (hr : Rel m (run cmds).h) (fuel e : Nat) (err : Val) :
+    Is m fuel e err ≠ throw Go.panicMsg := by
+  rw [go_is_eq hr]
+  intro hp
+  exact gIs_ne_panic (good_run hd).wf fuel e err (ofRes_inj (b := .panic) hp)
+
+/-! ### the 17 derivation methods
+
+`Generated/GerrorBase.lean` (rewritten by harness/cmd/extract-gerror on every run) lists what each of the 19
+factory methods of `*GError` hands to `CloneBase`.  The C06 model only needs the `srcError` column and the
+leading `if gerr, ok := err.(Error); ok { return gerr }`: `Meth.srcArg` / `Meth.isConvert`. -/
+
+/-- the method of the C15 wiring table -/
+def _root_.GErrorIs.Meth.wiring : Meth → GErrClone.Method
+  | .Base => .base | .SourceOnly => .sourceOnly | .Stack => .stack | .Src => .src | .DTag => .dTag | .Msg => .msg
+  | .SrcDTagMsg => .srcDTagMsg | .SrcDTag => .srcDTag | .SrcMsg => .srcMsg | .DTagMsg => .dTagMsg | .SrcS => .srcS
+  | .DTagS => .dTagS | .MsgS => .msgS | .SrcDTagMsgS => .srcDTagMsgS | .SrcDTagS => .srcDTagS | .SrcMsgS => .srcMsgS
+  | .DTagMsgS => .dTagMsgS | .Convert => .convert | .ConvertS => .convertS
+
+/-- In the code as it is now: exactly Convert/ConvertS pass their argument on to `CloneBase` as `srcError` (and
+return a gerror argument unchanged); the 17 derivations pass `nil` - what `Meth.srcArg` and `callWith` assume. -/
+theorem method_srcArg_wiring : ∀ mth ∈ Meth.all,
+    (GErrClone.rowOf Generated.GerrorBase.rows mth.wiring).map (fun r => (r.err, r.shortCircuit)) =
+      some (if mth.isConvert then (GErrClone.ErrArg.param 0, true) else (GErrClone.ErrArg.nil, false)) := by
+  decide
+
+/-- non-vacuity: every heap is represented by a memory -/
+def memOf (h : Heap) : Go.Mem (GError Val Unit) :=
+  { cell := fun a => ⟨[], [], [], [], (), (obj h a).factoryRef, (obj h a).srcErrors, (obj h a).isFactory⟩, next := h.length }
+
+theorem rel_memOf (h : Heap) : Rel (memOf h) h := ⟨rfl, fun _ => rfl⟩
+
+example : Go.toRes (Is (memOf (run [.newBase true, .call 0 .Msg .none]).h) 3 0 (.base 1)) = .t := by decide
 
 end C06Tie
